@@ -9,7 +9,7 @@ are added.  TraceSession.tla judges requests (follow-up = last accepted OID; non
 strictly increasing, exact values, in reply order) and termination; a walk that does not stop is reported."""
 import json, asyncio, random
 from vlib import env, tlc, trace, graph, scripts, apidrv, walks, agent as ag, sesscheck
-from vlib.report import Check, confirm_by_replay
+from vlib.report import Check, confirm_by_replay, timing_event
 from vlib.env import ToolError, SEED
 from checks import c05
 
@@ -162,11 +162,11 @@ def run(tier):
             chk.violation(dict(multi=info["multi"], client=info["kind"], ev=ev["ev"], got=ev.get("exc") or "ok"),
                           "%s %s, two walks %s (%s, variant %d): %s of walk %s: %s" % (info["kind"], info["cfg"], info["multi"], "two sessions" if info["two"] else "one session",
                           info["variant"], ev["ev"], ev.get("sid"), ev.get("exc") or json.dumps(ev.get("res"))[:100]),
-                          dict(info=info), confirm=confirm_by_replay(c05.replay, dict(info=info)))
+                          dict(info=info), confirm=(confirm_by_replay(c05.replay, dict(info=info)) if timing_event(ev) else None))
             continue
         sig = dict(op=info["op"], ev=ev["ev"], got=ev.get("exc") or "ok", shape=shape(info["script"]))
         chk.violation(sig, "%s %s %s walk, agent script %s: %s %s" % (info["kind"], info["ver"], info["op"], json.dumps(info["script"])[:160], ev["ev"], ev.get("exc") or json.dumps(ev.get("res"))[:80]),
-                      dict(info=info), confirm=confirm_by_replay(replay, dict(info=info)))
+                      dict(info=info), confirm=(confirm_by_replay(replay, dict(info=info)) if timing_event(ev) else None))
     chk.sample(dict(kind="script", op=items[40][0], replies=items[40][1]))
     return chk.finish()
 
